@@ -522,6 +522,11 @@ func (c *checker) instructions() {
 						c.bad("ssa.same-function", "%q uses %T %s of another function", in, v, v.Name())
 					}
 				case ir.Instruction:
+					if vv.Block() == nil {
+						// an instruction that was removed from its block (Parent() would dereference the nil block)
+						c.bad("ssa.same-function", "%q uses instruction value %s, which is in no block (removed from the function)", in, v.Name())
+						continue
+					}
 					if vv.Parent() != fn {
 						c.bad("ssa.same-function", "%q uses instruction value %s of another function", in, v.Name())
 						continue
